@@ -17,18 +17,23 @@ Override(b, r) == [f \in DOMAIN b |-> IF f \in DOMAIN r THEN r[f] ELSE b[f]]
 \* a plain regular log: the smallest accepted configuration
 Base == [logId |-> 1, prefix |-> "a", isReadonly |-> FALSE,
          pubKey |-> "absent", privKey |-> "ok", isMirror |-> FALSE, frozenSth |-> "absent",
-         start |-> "absent", limit |-> "absent", mmd |-> 0, expected |-> 0,
+         start |-> TsAbsent, limit |-> TsAbsent, mmd |-> 0, expected |-> 0,
          rejectExpired |-> FALSE, rejectUnexpired |-> FALSE, ekus |-> "none",
          backend |-> "trillian", connStr |-> "", backendName |-> ""]
 MirrorBase == [Base EXCEPT !.isMirror = TRUE, !.pubKey = "ecdsa", !.privKey = "absent"]
 FrozenBase == [Base EXCEPT !.pubKey = "ecdsa", !.frozenSth = "okSigned", !.isReadonly = TRUE]
 \* every optional field in use
-RichBase == [Base EXCEPT !.pubKey = "rsa", !.start = "t1", !.limit = "t2", !.mmd = 10, !.expected = 5,
+RichBase == [Base EXCEPT !.pubKey = "rsa", !.start = Ts(1, 2), !.limit = Ts(2, 1), !.mmd = 10, !.expected = 5,
                          !.rejectExpired = TRUE, !.ekus = "known", !.backend = "ctfe", !.connStr = "mysql://ok",
                          !.prefix = "b"]
 Bases == {Base, MirrorBase, FrozenBase, RichBase}
 
-Groups == <<KeyGroup, WindowGroup, DelayGroup, RejectGroup, EkuGroup, StorageGroup, IdentGroup>>
+\* In products with other groups the window varies over a core of bound states: absent, two instants inside one second,
+\* an instant in a later second with smaller nanos, an invalid timestamp.  The full product of bound states (31 x 31) is
+\* swept on its own over every base (WindowSweep).
+TsCore == {TsAbsent, Ts(1, 1), Ts(1, 2), Ts(2, 0), Ts(1, 3)}
+WindowCore == [start : TsCore, limit : TsCore]
+Groups == <<KeyGroup, WindowCore, DelayGroup, RejectGroup, EkuGroup, StorageGroup, IdentGroup>>
 
 \* The case set: every pair of field groups in full product with the rest as in a base, and some triples.
 \* Written as a disjunction of existentials (TLC enumerates it as initial states and removes duplicates by
@@ -38,13 +43,14 @@ RejectEku == {x @@ y : x \in RejectGroup, y \in EkuGroup}
 Triple(b, G1, G2, G3) == \E x \in G1, y \in G2, z \in G3 : c = Override(b, x @@ y @@ z)
 IsSingleCase ==
   \/ \E b \in Bases, p \in GroupPairs : \E x \in Groups[p[1]], y \in Groups[p[2]] : c = Override(b, x @@ y)
-  \/ Triple(Base, KeyGroup, WindowGroup, DelayGroup)
+  \/ \E b \in Bases, x \in WindowGroup : c = Override(b, x)                                      \* WindowSweep
+  \/ Triple(Base, KeyGroup, WindowCore, DelayGroup)
   \/ Triple(Base, KeyGroup, StorageGroup, RejectEku)
   \/ Triple(Base, KeyGroup, StorageGroup, IdentGroup)
   \/ Triple(Base, KeyGroup, IdentGroup, RejectEku)
   \/ Triple(Base, KeyGroup, DelayGroup, StorageGroup)
-  \/ Triple(Base, KeyGroup, WindowGroup, StorageGroup)
-  \/ Triple(RichBase, WindowGroup, DelayGroup, StorageGroup)
+  \/ Triple(Base, KeyGroup, WindowCore, StorageGroup)
+  \/ Triple(RichBase, WindowCore, DelayGroup, StorageGroup)
 
 AllFields == DOMAIN Base
 TypeOKSingle == DOMAIN c = AllFields
@@ -52,6 +58,9 @@ TypeOKSingle == DOMAIN c = AllFields
 \* the decision structure of ValidateLogConfig, one branch per return statement (cross-check of Valid,
 \* which is written from the property text, against config.go; "mysql" is the input on which the code
 \* indexes past the end of strings.Split - the branch says what its error handling intends)
+\* timestamppb.CheckValid (range of both components) and AsTime (one instant on a single axis; 3 nano ranks per second)
+CheckValid(t) == t.sec >= -1 /\ t.sec <= 2 /\ t.nanos >= 0 /\ t.nanos < 3
+Instant(t) == t.sec * 3 + t.nanos
 CodeAccepts(x) ==
   IF x.logId = 0 THEN FALSE
   ELSE IF x.pubKey = "garbage" THEN FALSE
@@ -61,8 +70,9 @@ CodeAccepts(x) ==
   ELSE IF x.isMirror /\ x.privKey # "absent" THEN FALSE
   ELSE IF x.rejectExpired /\ x.rejectUnexpired THEN FALSE
   ELSE IF x.ekus \in {"unknown", "unknownThenAny", "anyThenUnknown"} THEN FALSE   \* every name is looked up, Any or not
-  ELSE IF x.start = "invalid" \/ x.limit = "invalid" THEN FALSE
-  ELSE IF x.start = "t2" /\ x.limit = "t1" THEN FALSE
+  ELSE IF x.start.p /\ ~CheckValid(x.start) THEN FALSE
+  ELSE IF x.limit.p /\ ~CheckValid(x.limit) THEN FALSE
+  ELSE IF x.start.p /\ x.limit.p /\ Instant(x.limit) < Instant(x.start) THEN FALSE   \* time.Time.Before on the converted instants
   ELSE IF x.mmd < 0 \/ x.expected < 0 \/ x.expected > x.mmd THEN FALSE
   ELSE IF x.frozenSth \in {"badSig", "badHashLen"} THEN FALSE
   ELSE IF x.backend = "ctfe" THEN
@@ -85,7 +95,8 @@ AsMulti(x) == [bPresent |-> TRUE, backends |-> <<[name |-> "default", spec |-> "
 FailedIn(k) == {f \in DOMAIN k : ~k[f]}
 ExportSingle == PrintT(<<"CASE", ToJson([c |-> c, valid |-> Valid(c), failed |-> Failed(c),
                                          validAsSet |-> ValidSet(<<c>>), validAsMulti |-> ValidMulti(AsMulti(c)),
-                                         handlers |-> IF Valid(c) THEN Handlers(c) ELSE {}])>>)
+                                         handlers |-> IF Valid(c) THEN Handlers(c) ELSE {},
+                                         validated |-> ValidatedWindow(c)])>>)
 
 (* --- random draws from the full product of field states (seeded simulation) --- *)
 Draw == /\ c = None
